@@ -1044,7 +1044,8 @@ def rule_e(ctx):
             try:
                 res = ClassFolder(m, classes).call(f.node, [me, cs])
             except Raised as e:
-                ctx.ob(R, f.qname, f"{label}: has a branch", False, f"raises {e.name}", f.node)
+                from ..fold import raised_by_code
+                ctx.ob(R, f.qname, f"{label}: has a branch", False, f"raises {e.name}" + ("" if raised_by_code(e) else " on a stand-in: analysable form not found"), f.node, evidence=raised_by_code(e))
                 continue
             except Refuse as e:
                 raise AnalysisError(f"{f.qname} outside the folding language: {e}")
@@ -1076,7 +1077,8 @@ def rule_e(ctx):
             ok = isinstance(res, Sym) and res.fn == "self." + conv[kind[tgt]] and res.args and res.args[0] is cs
             ctx.ob(R, to.qname, f"to({tgt}) dispatches to {conv[kind[tgt]]}(coordinatesystem)", ok, repr(res), to.node)
         except Raised as e:
-            ctx.ob(R, to.qname, f"to({tgt}) dispatches to {conv[kind[tgt]]}(coordinatesystem)", False, f"raises {e.name}", to.node)
+            from ..fold import raised_by_code
+            ctx.ob(R, to.qname, f"to({tgt}) dispatches to {conv[kind[tgt]]}(coordinatesystem)", False, f"raises {e.name}" + ("" if raised_by_code(e) else " on a stand-in: analysable form not found"), to.node, evidence=raised_by_code(e))
         except Refuse as e:
             raise AnalysisError(f"{to.qname} outside the folding language: {e}")
     # Array containers return typed items
